@@ -201,13 +201,16 @@ def r12b(text, ctx):
         done = True
         for (fi, ii, bo, bc) in find_for_loops(toks):
             pat = text[toks[fi + 1].start:toks[ii - 1].end].strip()
-            if pat not in targets:
+            hit = [t for t in targets if t.split()[0] == pat]
+            if not hit:
                 continue
+            # optional second word: the call text, e.g. `next(world)` for an iterator whose next reaches a filesystem
+            call = hit[0].split()[1] if len(hit[0].split()) > 1 else 'next()'
             expr = text[toks[ii + 1].start:toks[bo - 1].end].strip()
             n += 1
             body_inner = text[toks[bo].start:toks[bc].end]
-            new = ('let mut verif_it_%d = %s;\n        loop {\n            match verif_it_%d.next() {\n                Some(%s) => %s,\n                None => { break; }\n            }\n        }'
-                   % (n, expr, n, pat, body_inner))
+            new = ('let mut verif_it_%d = %s;\n        loop {\n            match verif_it_%d.CALL {\n                Some(%s) => %s,\n                None => { break; }\n            }\n        }'
+                   % (n, expr, n, pat, body_inner)).replace('CALL', call)
             text = text[:toks[fi].start] + new + text[toks[bc].end:]
             done = False
             break
